@@ -817,6 +817,18 @@ def run_case(ctx, case):
                         qrecs.append(('card', n, len(inv.get(n, ())), c))
                     ctx.count('q:absent-name-queries', 2 * (n not in pkeys) + 3 * (n not in tkeys))
                     ctx.count('q:present-name-queries', 2 * (n in pkeys) + 3 * (n in tkeys))
+                # a bound method taken from THIS object keeps meaning this object, whatever is looked up on other objects in
+                # between (old and new spelling alike)
+                ctx.mon('M.query.bound')
+                other = partner if partner is not None else debtags.DB()
+                for mname, table in (('tags_of_package', fwd), ('tagsOfPackage', fwd), ('packages_of_tag', inv), ('packagesOfTag', inv)):
+                    bound = getattr(cur, mname)
+                    getattr(other, mname)('~absent~')
+                    for n in list(op['names'])[:2] + sorted(pkeys if table is fwd else tkeys)[:2]:
+                        got = bound(n)
+                        ctx.count('q:bound-method-called-after-lookup-on-another-object')
+                        if not isinstance(got, (set, frozenset)) or got != table.get(n, set()):
+                            qrecs.append((mname + ' (bound earlier)', n, table.get(n, set()), got))
                 # the multi-name and derived read-only queries: answers per the relation where the statement gives one
                 # (union over the names), and - like every query - no trace in the collection afterwards
                 ctx.mon('M.query.multi')
@@ -1840,7 +1852,7 @@ _OPS_Q = {'dpair:formed/choose_packages/keeps-everything': 250, 'dpair:formed/ch
           'pair:op:query': 7000, 'pair:op:read': 2800, 'pair:op:reverse_view': 18000, 'q:absent-name-queries': 207500,
           'q:present-name-queries': 31000, 'q:with-live-derived-partner': 2100, 'q:with-live-partner': 7000,
           'view-start:both-empty': 4300, 'view-start:general': 7200, 'view-start:no-packages': 1500,
-          'view-start:no-tags': 2100, 'view-start:single-package': 2700, 'read:line-with-empty-tag-name': 5500, 'insert:without-tags': 12000, 'q:multi-name-query': 20000, 'called-through-deprecated-alias': 3000}
+          'view-start:no-tags': 2100, 'view-start:single-package': 2700, 'read:line-with-empty-tag-name': 5500, 'insert:without-tags': 12000, 'q:multi-name-query': 20000, 'called-through-deprecated-alias': 3000, 'q:bound-method-called-after-lookup-on-another-object': 100000}
 _OPS_T = dict((k, v * 40) for k, v in _OPS_Q.items())
 FLOORS = {'quick': {'nontrivial': 19500, 'monitors': {'M': 210000, 'M.pair': 50000, 'M.dpair': 22000, 'M.query': 310000},
                     'counters': _OPS_Q},
